@@ -53,16 +53,16 @@ Why ==
   ELSE IF E.n < 1 THEN "line-read-of-nonpositive-size"
   ELSE IF E.got # Len(B) THEN "SELFCHECK-log-inconsistent"
   ELSE IF IO!LfIn(B) = 0 \/ ~HasNext THEN ""
-  ELSE IF E2.op # "seek" THEN "no-seek-back-after-delimiter"
-  ELSE IF E2.pos # pos + IO!LfIn(B) - 1 THEN "seek-back-to-wrong-position"
-  ELSE ""
+  ELSE IF E2.op = "seek" THEN (IF E2.pos # pos + IO!LfIn(B) - 1 THEN "seek-back-to-wrong-position" ELSE "")
+  ELSE IF IO!LfIn(B) < Len(B) THEN "no-seek-back-after-delimiter"     \* bytes were read past the delimiter
+  ELSE ""                                                             \* nothing to give back: the seek is optional
 Adv(k) == i' = i /\ j' = j + k
 Step ==
   IF E.op = "yield" THEN IO!Yield /\ Adv(1)
   ELSE IF phase = "content" THEN IO!ReadContent /\ Adv(1)
   ELSE IF B = <<>> THEN IO!ReadEof(E.n) /\ Adv(1)
   ELSE IF IO!LfIn(B) = 0 THEN IO!ReadMiss(E.n) /\ Adv(1)
-  ELSE IO!ReadHit(E.n) /\ Adv(IF HasNext THEN 2 ELSE 1)
+  ELSE IO!ReadHit(E.n) /\ Adv(IF HasNext /\ E2.op = "seek" THEN 2 ELSE 1)
 NextTrace ==
   /\ i' = i + 1 /\ j' = 1
   /\ stream' = (IF i + 1 <= Len(Traces) THEN Traces[i + 1].stream ELSE <<>>)
